@@ -158,16 +158,42 @@ func runC05(c *vf.Case) {
 	case 0: // nested Post: bounded-progress probe
 		depth := r.Range(1, 3)
 		n := r.Range(1, 20)
+		// history first (two scripts in three): an ordinary small batch, then one very large batch queued between two
+		// loop iterations (the queue's storage grows past 1Ki / 4Ki / 16Ki / 64Ki slots), so that the nested posts below
+		// meet whatever the loop kept from it
+		if r.Chance(2, 3) {
+			small := r.Range(1, 64) // often more than the later batches need: their storage is then reused as it is
+			burst := []int{1100, 5000, 20000, 70000}[r.Intn(4)]
+			c.Logf("history: a batch of %d, then a burst of %d posts queued between two loop iterations", small, burst)
+			c.Bounded("post-burst-never-dispatched", 60*time.Second, func() {
+				for i := 0; i < small; i++ {
+					x.post(ioc, 5, i, 0, &nested)
+				}
+				_, _ = ioc.PollOne()
+				for i := 0; i < burst; i++ {
+					x.post(ioc, 5, small+i, 0, &nested)
+				}
+				for it := 0; it < 2000 && int(atomic.LoadInt64(&x.total)) < small+burst; it++ {
+					_, _ = ioc.PollOne()
+				}
+			})
+			if got := int(atomic.LoadInt64(&x.total)); got != small+burst {
+				c.Failf("burst-handlers-not-all-executed", "%d handlers posted from the loop goroutine before polling, %d executed", small+burst, got)
+			}
+			c.Count("bursts_queued_between_two_loop_iterations", 1)
+			c.Max("largest_burst", int64(burst))
+		}
+		base := int(atomic.LoadInt64(&x.total))
 		c.Logf("nested-post probe: %d handlers each posting again to depth %d", n, depth)
 		c.Bounded("post-from-posted-handler-deadlocks-the-loop", 30*time.Second, func() {
 			for i := 0; i < n; i++ {
 				x.post(ioc, 1, i, depth, &nested)
 			}
-			for it := 0; it < 2000 && int(atomic.LoadInt64(&x.total)) < n*(depth+1); it++ {
+			for it := 0; it < 2000 && int(atomic.LoadInt64(&x.total)) < base+n*(depth+1); it++ {
 				_, _ = ioc.PollOne()
 			}
 		})
-		if got := int(atomic.LoadInt64(&x.total)); got != n*(depth+1) {
+		if got := int(atomic.LoadInt64(&x.total)) - base; got != n*(depth+1) {
 			c.Failf("nested-post-handlers-not-all-executed", "%d handlers posted (incl. nested), %d executed", n*(depth+1), got)
 		}
 		c.Count("nested_post_probes", 1)
